@@ -23,8 +23,8 @@ def run(tier):
               'list of missing names and whether the body ran; non-trivial = a call involving at least one REQUIRED '
               'marker (caller- or signature-level)')
   cc.model_check(rep, 'MC_Required_quick' if tier == 'quick' else 'MC_Required_thorough', timeout=3400)
-  n = 300 if tier == 'quick' else 4000
-  cc.replay_behaviours(rep, 'GinCore_Sim_required', num=n, nontrivial=_nontrivial)
+  n = 200 if tier == 'quick' else 4000
+  cc.replay_behaviours(rep, 'GinCore_Sim_required', num=n, nontrivial=_nontrivial, generate=n * 6)
   return rep.finish()
 
 
